@@ -457,6 +457,20 @@ class Schema(dict, metaclass=LogicalMeta):
         #
         # return super().update(values)
 
+    def __ior__(self, other):
+        # dict's in-place union writes the items directly: go through the parsing update()
+        self.update(other)
+        return self
+
+    def setdefault(self, key: str, default=None):
+        if key in self:
+            return self[key]
+        # not present: assign through __setitem__, so that the default is parsed like any other value
+        self[key] = default
+        if key in self:
+            return self[key]
+        return default
+
     # def __copy__(self):
     #     return self.copy()
 
